@@ -1007,6 +1007,63 @@ func c19Scripted(r *Run) {
 	}()
 }
 
+// c19EnumScripted: operations on enum columns (plain, optional and multi-valued, of strings and of integers)
+// that a database may well refuse but has to answer: every mutator with operands of the enum's atomic type
+// and of other types, values outside the enum, conditions of every function
+func c19EnumScripted(r *Run) {
+	str := func(kind string, min, max int) ColType { return ColType{Kind: kind, Key: "string", Min: min, Max: max} }
+	t := TableSpec{Name: "E", IsRoot: true, Cols: []ColSpec{
+		{Name: "name", Type: str("atom", 1, 1)},
+		{Name: "n", Type: ColType{Kind: "atom", Key: "integer", Min: 1, Max: 1}},
+		{Name: "act", Type: str("atom", 1, 1), IsEnum: true, EnumVals: []Atom{AS("allow"), AS("drop"), AS("reject")}},
+		{Name: "oact", Type: str("opt", 0, 1), IsEnum: true, EnumVals: []Atom{AS("allow"), AS("drop")}},
+		{Name: "acts", Type: str("set", 0, -1), IsEnum: true, EnumVals: []Atom{AS("allow"), AS("drop"), AS("reject")}},
+		{Name: "lvl", Type: ColType{Kind: "atom", Key: "integer", Min: 1, Max: 1}, IsEnum: true, EnumVals: []Atom{AI(1), AI(2), AI(3)}},
+	}}
+	ts := TxnSchema{Spec: SchemaSpec{Name: "db", Tables: []TableSpec{t}}, Specs: map[string][]ISpec{"E": {}}}
+	var texts []string
+	for _, col := range []string{"act", "oact", "acts", "lvl"} {
+		for _, mut := range []string{"+=", "-=", "*=", "/=", "%=", "insert", "delete"} {
+			for _, val := range []string{`"drop"`, `1`, `0`, `["set",["allow","drop"]]`, `["set",[]]`, `"nosuch"`, `1.5`, `true`} {
+				texts = append(texts, `[{"op":"mutate","table":"E","where":[],"mutations":[["`+col+`","`+mut+`",`+val+`]]}]`)
+			}
+		}
+		for _, fn := range []string{"==", "!=", "<", "<=", ">", ">=", "includes", "excludes"} {
+			for _, val := range []string{`"drop"`, `2`, `["set",["allow"]]`, `"nosuch"`} {
+				texts = append(texts, `[{"op":"select","table":"E","where":[["`+col+`","`+fn+`",`+val+`]]}]`)
+			}
+		}
+		for _, val := range []string{`"drop"`, `"nosuch"`, `7`, `["set",["allow","allow"]]`, `["set",[]]`} {
+			texts = append(texts, `[{"op":"update","table":"E","where":[],"row":{"`+col+`":`+val+`}}]`,
+				`[{"op":"insert","table":"E","row":{"name":"x","`+col+`":`+val+`}}]`)
+		}
+	}
+	for _, text := range texts {
+		r.Case("transact-scripted", "enum:"+text)
+		cs := map[string]interface{}{"model": ts.modelJSON(), "ops_json": text}
+		im := newImplDB(ts)
+		im.transact([]OperationJ{{Op: "insert", Table: "E", UUID: mkUUID(1), Row: Row{"name": VA(AS("a")), "n": VA(AI(4)),
+			"act": VA(AS("allow")), "oact": VS(AS("drop")), "acts": VS(AS("allow"), AS("reject")), "lvl": VA(AI(2))}}}, nil)
+		var ops []ovsdb.Operation
+		if err := json.Unmarshal([]byte(text), &ops); err != nil {
+			continue
+		}
+		func() {
+			defer func() {
+				if p := recover(); p != nil {
+					r.Violation("transact-scripted", cs, fmt.Sprintf("panic: %v", p), "results or error results", true, "the database panicked on an operation on an enum column", "")
+				}
+			}()
+			tx := im.d.NewTransaction("db")
+			tx.Transact(ops...)
+		}()
+		out := im.transact([]OperationJ{{Op: "select", Table: "E"}}, nil)
+		if out.Panic != "" || hasErr(out.Results) || len(out.Results) != 1 || len(out.Results[0].Rows) == 0 {
+			r.Violation("transact-scripted", cs, out.Panic, "", true, "the database does not serve a simple select after an operation on an enum column", "")
+		}
+	}
+}
+
 // c19Transact: corrupted operation lists against the database.
 // c19CondSweep: every column of a populated table x every condition function and mutator x degenerate
 // arguments of the column's own type (empty set / map, one element, the value a row holds): well-typed
@@ -1074,6 +1131,7 @@ func c19Answer(r *Run, ts TxnSchema, im *ImplDB, ops []OperationJ, stream string
 
 func c19Transact(r *Run) {
 	c19Scripted(r)
+	c19EnumScripted(r)
 	c19CondSweep(r)
 	n := 300
 	if r.Tier == "thorough" {
